@@ -57,37 +57,68 @@ def rw_merge(chk, repo):
     chk.doc("R18.5", "read-write flags of a shared terminal are OR-ed")
     sym = C + "SyncGroupBase.__init__"
     f = repo.func(sym)
-    loops = [l for l in walk_no_nested(f) if isinstance(l, ast.For)
-             and "devices" in unparse(l.iter)]
-    need(len(loops) == 1, f"{sym}: loop over the devices not found")
-    lp = loops[0]
-    gt = [c for c in calls_in(lp) if isinstance(c.func, ast.Attribute)
-          and c.func.attr == "get_terminals"]
-    need(len(gt) == 1, f"{sym}: get_terminals() not called in the loop")
-    merges = []
-    for st in ast.walk(lp):
-        if isinstance(st, ast.AugAssign) and isinstance(
-                st.target, ast.Subscript) and isinstance(st.op, ast.BitOr):
-            merges.append(st)
-        elif isinstance(st, ast.Assign) and isinstance(
-                st.targets[0], ast.Subscript) and isinstance(
-                    st.value, (ast.BoolOp, ast.BinOp)) and (
-                isinstance(getattr(st.value, "op", None), (ast.Or,
-                                                           ast.BitOr))) \
-                and unparse(st.targets[0].value) in unparse(st.value):
-            merges.append(st)
-    overwrites = [c for c in calls_in(lp) if isinstance(c.func, ast.Attribute)
-                  and c.func.attr == "update"] + [
-        st for st in ast.walk(lp) if isinstance(st, ast.Assign)
-        and isinstance(st.targets[0], ast.Subscript) and st not in merges]
-    ok = len(merges) == 1 and not overwrites
+    chk.analysed(sym)
+    sg = repo.cls(C + "SyncGroupBase")
+    # by abstract execution: devices sharing terminals, in every order
+    import itertools
+    t1, t2, t3 = (Obj(None, {"position": p_, "name": f"t{p_}"})
+                  for p_ in (5, 2, 9))
+    maps = [{t1: True, t2: False}, {t1: False, t2: False, t3: True},
+            {t2: False, t3: False}]
+    want = {t1: True, t2: False, t3: True}
+    bad = []
+    for order in itertools.permutations(range(3)):
+        devs = [Obj(None, {"get_terminals": ("hook", lambda _m=maps[i]:
+                                             dict(_m))}) for i in order]
+        me = Obj(sg, {})
+        try:
+            Evaluator(repo, f._module, sg, funcs={
+                "defaultdict": ("hook", _defaultdict)}).call_function(
+                f, [me, Obj(None, {}), devs], cls=sg)
+        except (Unknown, Raised) as e:
+            raise AnalysisError(f"{sym}: cannot be evaluated: {e}")
+        got = me.fields.get("terminals")
+        if not isinstance(got, dict) or {k: bool(v) for k, v in got.items()
+                                         } != want:
+            shown = {k.fields["name"]: v for k, v in (got or {}).items()} \
+                if isinstance(got, dict) else got
+            bad.append(f"devices in order {order}: flags {shown}, a "
+                       f"terminal written by any device is read-write: "
+                       f"{ {k.fields['name']: v for k, v in want.items()} }")
+        elif any(d.fields.get("sync_group") is not me for d in devs):
+            bad.append("a device is not told its sync group")
     chk.ob("R18.5", sym, "flags of one terminal from several devices are "
-           "combined with `or`", ok, merges[0] if merges else (
-               overwrites[0] if overwrites else lp),
-           f"`{unparse(merges[0])}`" if ok else
-           "the flag of the device that comes last wins: a terminal shared "
-           "by a writing and a read-only device gets no output region, and "
-           "the writer's variables have no place in the frame")
+           "combined with `or` (6 device orders by abstract execution)",
+           not bad, f, "; ".join(bad[:2]) or "t1 written by one of two "
+           "devices is read-write whichever comes last" if not bad else
+           "; ".join(bad[:2]) + ": a terminal shared by a writing and a "
+           "read-only device gets no output region, and the writer's "
+           "variables have no place in the frame")
+
+
+class _DD(dict):
+    def __init__(self, factory):
+        super().__init__()
+        self.factory = factory
+
+    def __missing__(self, key):
+        v = self[key] = self.factory()
+        return v
+
+
+def _defaultdict(factory=None, *a):
+    """collections.defaultdict for the abstract run: the factory is an
+    evaluator-level function"""
+    if isinstance(factory, tuple) and factory and factory[0] == "function":
+        body = factory[2].body if isinstance(factory[2], ast.Lambda) \
+            else None
+        if isinstance(body, ast.Constant):
+            return _DD(lambda _v=body.value: _v)
+    if isinstance(factory, tuple) and factory[:1] == ("pyfunc",):
+        return _DD(factory[1])
+    if isinstance(factory, tuple) and factory[:1] == ("type",):
+        return _DD(factory[1])
+    raise Unknown("defaultdict factory")
 
 
 def allocation_semantic(chk, repo, rule="R18.6"):
